@@ -170,6 +170,10 @@ package lib
 //@   atcall Errorln before: snap deadlineRefused := true
 //@   ensures @C05: rdEnded(src) || wfail(dst) || defined(deadlineRefused)
 //@   ensures @C05: closed(dst) && spawned_halfPipe_2(src)
+// "always tears both sides down": the group is signalled (and the statistics are finalised) only AFTER the destination
+// was closed and the close of the source was started - Proxy returns when both directions have signalled, so a signal
+// given before the teardown would let it return with connections still open
+//@   atcall halfPipe$1 after: assert @C05: closed(dst) && spawned_halfPipe_2(src)
 //@   ensures @C05: wgdone(wg) == old(wgdone(wg)) + 1
 //@   ensures @C05: stats.BytesUp + stats.BytesDown == old(stats.BytesUp + stats.BytesDown) + nwritten(dst) - old(nwritten(dst))
 //@ loop 1:
@@ -617,6 +621,10 @@ package lib
 // message is under contract on parseRegMessage / ingestRegistration)
 //@ func (rm *RegistrationManager) HandleRegUpdates(ctx context.Context, regChan <-chan interface{}, parentWG *sync.WaitGroup)
 //@   cancellable @C09: ctx
+// shutdown: the hand-over channel is closed only after every worker has returned (a worker that is still running
+// would receive the zero value from the closed channel and panic on it), and the parent is signalled last
+//@   atcall WaitGroup).Wait before: snap workersGone := true
+//@   atcall <close> before: assert @C09: defined(workersGone)
 //@   ensures @C09: true
 //@   checks structure
 //@ loop 1:
